@@ -12,8 +12,9 @@ on that lattice).
   (d) `netWrite` / `netRead`   io/network_writer.py `writeToCsv`, io/network_reader.py `readFromFile`,
       `readLineAndAddToNetwork`, `wktLineStringToObs`, core/network.py `addEdge` (node table)
   (e) `toWKT` / `parseWkt`     core/track.py `Track.toWKT`, io/track_reader.py `TrackReader.parseWkt`
-  (f) `gpxBody` / `readGpx`    io/track_writer.py `writeToGpx` (from the first `<trk>` line on),
-      io/track_reader.py `__readFromGpx` (type `trk`)
+  (f) `gpxBody` / `gpxBodyAF` / `readGpx`    io/track_writer.py `writeToGpx` (from the first `<trk>` line on; with
+      `af=True` the `<extensions>` block of every point), io/track_reader.py `__readFromGpx` (type `trk`)
+  (b') `readAll` / `readCsvAll`   the `read_all` part of `__readFromCsv` (feature columns named by the header block)
 
 Python exceptions are the `Except` error strings `index` (IndexError), `value` (ValueError),
 `arg` (WrongArgumentError), `type` (TypeError). -/
@@ -304,18 +305,36 @@ def printInOrder (E N : Str) (U T : Option Str) (afs : Str) (O : List (Int × Na
     | none, none => pure []
   pure (a ++ [sep] ++ b ++ rest ++ afs)
 
+/-- a value of an analytical feature as the writer meets it: a Python `int`, a `float` on the `10^-d` lattice
+(positional `repr`), a `str`, `nan`, `±inf` -/
+inductive AFVal where
+  | int (i : Int)
+  | dec (d : Nat) (n : Int)
+  | str (s : Str)
+  | nan
+  | inf (neg : Bool)
+  deriving DecidableEq, Repr
+
+/-- `str(track.getObsAnalyticalFeature(af_name, i))` -/
+def afText : AFVal → Str
+  | .int i => intStr i
+  | .dec d n => reprDec d n
+  | .str s => s
+  | .nan => "nan".toList
+  | .inf neg => if neg then "-inf".toList else "inf".toList
+
 /-- width and decimals of the float format chosen from the SRID: ENU/ECEF `{:10.3f}`, GEO `{:20.10f}` -/
 def floatFmt (geo : Bool) : Nat × Nat := if geo then (20, 10) else (10, 3)
 
-/-- one data line of `writeToFile` (without the newline); `afs` are integer feature values -/
-def writeRow (f : CsvFmt) (geo : Bool) (pf : List Tok) (O : List (Int × Nat)) (r : Row) (afs : List Int) :
+/-- one data line of `writeToFile` (without the newline); `afs` are the feature values of the observation -/
+def writeRow (f : CsvFmt) (geo : Bool) (pf : List Tok) (O : List (Int × Nat)) (r : Row) (afs : List AFVal) :
     Except String Str :=
   let (w, d) := floatFmt geo
   let x := fixedWS w d r.x
   let y := fixedWS w d r.y
   let z := if f.idU = -1 then none else some (fixedWS w d r.z)
   let t := if f.idT = -1 then none else some (printTime pf r.t)
-  let a := afs.foldl (fun acc v => acc ++ [f.sep] ++ intStr v) []
+  let a := afs.foldl (fun acc v => acc ++ [f.sep] ++ afText v) []
   printInOrder x y z t a O f.sep
 
 /-- header names of the coordinate columns by `track.getSRID().upper()` -/
@@ -339,12 +358,24 @@ def headerBlock (f : CsvFmt) (srid : Str) (names : List Str) (O : List (Int × N
 /-- `TrackWriter.writeToFile(track, path, id_E, id_N, id_U, id_T, separator, h, af_names)`:
 the text of the file (`srid` = `track.getSRID().upper()`, `names` = `af_names`, `naf` their number). The header
 block is written for every `h > 0` and is the same whatever the positive value. -/
-def writeToFile (f : CsvFmt) (geo : Bool) (pf : List Tok) (h : Nat) (naf : Nat) (rows : List (Row × List Int))
+def writeToFile (f : CsvFmt) (geo : Bool) (pf : List Tok) (h : Nat) (naf : Nat) (rows : List (Row × List AFVal))
     (srid : Str := "ENU".toList) (names : List Str := []) : Except String Str := do
   let O := orderList f naf
   let hdr ← if h > 0 then headerBlock f srid names O else pure []
   let ls ← rows.mapM (fun ra => writeRow f geo pf O ra.1 ra.2)
   pure ((hdr ++ ls).map (· ++ ['\n'])).flatten
+
+/-- `TrackWriter.writeToCsv(track, path, track_format)`: `writeToFile` with the column ids, separator and `header` of the
+TrackFormat; `track_format.af_names` is always empty (TrackFormat never fills it), so no feature column is written -/
+def writeToCsv (f : CsvFmt) (geo : Bool) (pf : List Tok) (header : Nat) (rows : List Row) (srid : Str := "ENU".toList) :
+    Except String Str :=
+  writeToFile f geo pf header 0 (rows.map (fun r => (r, []))) srid []
+
+/-- `TrackWriter.writeToCsv(collection, dir, track_format)` = `writeToFiles`: one file `track_output_<i>.csv` per track, each
+written by `writeToFile` with the same arguments -/
+def writeToCsvColl (f : CsvFmt) (geo : Bool) (pf : List Tok) (header : Nat) (tracks : List (List Row)) (srid : Str := "ENU".toList) :
+    Except String (List Str) :=
+  tracks.mapM (fun rows => writeToCsv f geo pf header rows srid)
 
 /-- the lines of a text as `readline()` delivers them, without their newline (an empty element is
 an empty line inside the file; the end of the list is end of file) -/
@@ -422,12 +453,152 @@ def readCsv (f : CsvFmt) (rf : List Tok) (header : Nat) (text : Str) : Except St
   let ls ← skipHeader header (fileLines text)
   readLines f rf '#' ls
 
+/-! ### (b') `read_all`: the feature columns
+
+`__readFromCsv(..., read_all=True)`: during the first pass `name_non_special` is overwritten by every header line and
+every comment line (split on the separator), `fields` is left at the last data line; afterwards one feature is created
+for every column index of that last line that is not one of `id_E id_N id_U id_T`, named by `name_non_special[i]`, and
+the file is read a second time to fill the values (`float(val)`, else the text without double quotes; a name ending in
+`&` keeps the text). -/
+
+/-- a feature value as the reader stores it: a float (decimal literal), `nan`, `±inf`, or a string -/
+inductive AFRead where
+  | num (v : Dec)
+  | nan
+  | inf (neg : Bool)
+  | str (s : Str)
+  deriving DecidableEq, Repr
+
+def toLower (s : Str) : Str := s.map Char.toLower
+
+/-- `float(s)` on the texts met in feature columns: a decimal literal, or `nan` / `inf` / `infinity` in any case with an
+optional sign; `none` is the ValueError (exponent forms and digit-group underscores are outside the model) -/
+def floatLit? (s0 : Str) : Option AFRead :=
+  match parseDec? s0 with
+  | some v => some (.num v)
+  | none =>
+    let s := strip s0
+    let neg := s.head? == some '-'
+    let body := toLower (if s.head? == some '-' || s.head? == some '+' then s.drop 1 else s)
+    if body = "nan".toList then some .nan
+    else if body = "inf".toList || body = "infinity".toList then some (.inf neg) else none
+
+/-- the value stored for the (stripped) field `val` of the column named `name` (`name[-1]` on an empty name is an IndexError) -/
+def afValue (name val : Str) : Except String AFRead :=
+  match name.getLast? with
+  | none => throw "index"
+  | some c =>
+    if c = '&' then pure (.str val)
+    else match floatLit? val with
+      | some v => pure v
+      | none => pure (.str (val.filter (· ≠ '"')))
+
+/-- the lines of a text as `readline()` returns them, with their newline (the last one may lack it) -/
+def rawLines (s : Str) : List Str :=
+  let ls := fileLines s
+  if s.getLast? = some '\n' then ls.map (· ++ ['\n'])
+  else ls.dropLast.map (· ++ ['\n']) ++ ls.getLast?.toList
+
+/-- the lines of a file paired with their raw form: (line without its newline, line as `readline()` returns it) -/
+def linePairs (s : Str) : List (Str × Str) := (fileLines s).zip (rawLines s)
+
+/-- header loop of the first pass: `if line[0] == cmt: line = line[1:]; name_non_special = line.split(sep)` on the raw line -/
+def hdrLoopNames (sep cmt : Char) : Nat → List (Str × Str) → Option (List Str) →
+    Except String (List (Str × Str) × Option (List Str))
+  | 0, ls, nm => pure (ls, nm)
+  | _+1, [], _ => throw "index"
+  | k+1, l :: ls, _ =>
+    hdrLoopNames sep cmt k ls (some (splitOnChar sep (if l.2.head? = some cmt then l.2.drop 1 else l.2)))
+
+/-- data loop of the first pass as far as `name_non_special` (comment lines: `line[1:].split(sep)` of the stripped line) and
+the length of the last `fields` are concerned -/
+def dataLoopNames (sep cmt : Char) : List (Str × Str) → Option (List Str) → Option Nat → Option (List Str) × Option Nat
+  | [], nm, nf => (nm, nf)
+  | l :: ls, nm, nf =>
+    match strip l.1 with
+    | [] => (nm, nf)
+    | c :: cs =>
+      if c = cmt then dataLoopNames sep cmt ls (some (splitOnChar sep cs)) nf
+      else dataLoopNames sep cmt ls nm (some ((splitOnChar sep (c :: cs)).filter (fun s => !s.isEmpty)).length)
+
+/-- `id_special` -/
+def special (f : CsvFmt) : List Int :=
+  [f.idE, f.idN] ++ (if f.idU ≥ 0 then [f.idU] else []) ++ (if f.idT ≥ 0 then [f.idT] else [])
+
+/-- the names `Track.__controlName` refuses -/
+def reserved : List Str := ["x".toList, "y".toList, "z".toList, "t".toList, "timestamp".toList, "idx".toList]
+
+/-- `for i in range(len(fields)): if not (i in id_special): track.createAnalyticalFeature(name_non_special[i])`:
+the feature dictionary (names in order of creation; a name already present is not created again) -/
+def createAFs (f : CsvFmt) (names : List Str) (nf : Nat) : Except String (List Str) :=
+  (List.range nf).foldlM (fun dico (i : Nat) =>
+    if (special f).contains (Int.ofNat i) then pure dico else do
+      let name ← nth names i
+      if reserved.contains name then throw "AnalyticalFeatureError"
+      else pure (if dico.contains name then dico else dico ++ [name])) []
+
+/-- the inner loop of the second pass on the fields of one line: observation number `k` -/
+def afRowSet (f : CsvFmt) (names dico : List Str) (fields : List Str) (k : Nat) (fs : List (List AFRead)) :
+    Except String (List (List AFRead)) :=
+  (List.range fields.length).foldlM (fun fs (i : Nat) =>
+    if (special f).contains (Int.ofNat i) then pure fs else do
+      let fld ← nth fields i
+      let name ← nth names i
+      let v ← afValue name (strip fld)
+      match dico.idxOf? name with
+      | none => throw "AnalyticalFeatureError"
+      | some j => do
+        let ft ← nth fs k
+        pure (fs.set k (ft.set j v))) fs
+
+/-- the second pass over (line without newline, raw line) pairs: the first line is used raw (`fp.readline()`), the
+following ones stripped; `line.strip()[0]` on a blank first line is an IndexError -/
+def afLoop (f : CsvFmt) (cmt : Char) (names dico : List Str) :
+    Bool → List (Str × Str) → Nat → List (List AFRead) → Except String (List (List AFRead))
+  | _, [], _, fs => pure fs
+  | first, l :: ls, k, fs =>
+    let line := if first then l.2 else strip l.1
+    if line.isEmpty then pure fs
+    else match strip line with
+      | [] => throw "index"
+      | c :: _ =>
+        if c = cmt then afLoop f cmt names dico false ls k fs
+        else do
+          let fields := (splitOnChar f.sep line).filter (fun s => !s.isEmpty)
+          let fs' ← afRowSet f names dico fields k fs
+          afLoop f cmt names dico false ls (k + 1) fs'
+
+/-- the `read_all` part of `__readFromCsv` on a file text whose first pass gave `nobs` observations: the feature names
+and, per observation, the feature values (0.0 where a line has fewer fields) -/
+def readAll (f : CsvFmt) (header : Nat) (cmt : Char) (text : Str) (nobs : Nat) :
+    Except String (List Str × List (List AFRead)) := do
+  let (rest, nm0) ← hdrLoopNames f.sep cmt header (linePairs text) none
+  let (nm, nf) := dataLoopNames f.sep cmt rest nm0 none
+  match nm with
+  | none => throw "unbound"
+  | some nm =>
+    let names := (nm.filter (fun s => !s.isEmpty)).map strip
+    match nf with
+    | none => throw "unbound"
+    | some nf => do
+      let dico ← createAFs f names nf
+      let init := List.replicate nobs (List.replicate dico.length (AFRead.num (0, 0)))
+      let fs ← afLoop f cmt names dico true ((linePairs text).drop header) 0 init
+      pure (dico, fs)
+
+/-- `TrackReader.readFromCsv(..., read_all=True)`: the observations, the feature names, the feature values -/
+def readCsvAll (f : CsvFmt) (rf : List Tok) (header : Nat) (text : Str) :
+    Except String (List RRow × List Str × List (List AFRead)) := do
+  let rows ← readCsv f rf header text
+  let (names, fs) ← readAll f header '#' text rows.length
+  pure (rows, names, fs)
+
 /-! ### (e) WKT -/
 
 /-- a planimetric vertex on the lattice -/
 abbrev Pt := Int × Int
 
-/-- `Track.toWKT()` for an ENU or Geo track whose coordinates are `n / 10^d` -/
+/-- `Track.toWKT()` for an ENU, Geo or ECEF track whose first two coordinates (E N / lon lat / X Y) are `n / 10^d` -/
 def toWKT (d : Nat) (pts : List Pt) : Str :=
   "LINESTRING(".toList ++ joinChar ',' (pts.map (fun p => reprDec d p.1 ++ [' '] ++ reprDec d p.2)) ++ [')']
 
@@ -451,12 +622,35 @@ def wktCoords (wkt : Str) : Except String (List Str) := do
   let b ← nth (splitOnChar ')' a) 0
   return splitOnChar ',' b
 
-/-- `TrackReader.parseWkt` on a `LINESTRING` -/
+/-- `s.split("ab")` for a two-character separator (left to right, non-overlapping) -/
+def splitOn2 (a b : Char) : Str → List Str
+  | [] => [[]]
+  | [x] => [[x]]
+  | x :: y :: r =>
+    if x = a ∧ y = b then [] :: splitOn2 a b r
+    else match splitOn2 a b (y :: r) with
+      | [] => [[x]]
+      | h :: t => (x :: h) :: t
+
+/-- `wkt.split("((")[1].split("))")[0].split(",")` -/
+def wktCoordsPoly (wkt : Str) : Except String (List Str) := do
+  let a ← nth (splitOn2 '(' '(' wkt) 1
+  let b ← nth (splitOn2 ')' ')' a) 0
+  return splitOnChar ',' b
+
+/-- `TrackReader.parseWkt`: `POLYGON((…))` (outer ring up to the first `))`), `LINESTRING(…)`; the `MULTIPOLYGON` branch
+calls `.split` on a list (AttributeError) once its two index operations succeeded; any other text is a WrongArgumentError -/
 def parseWkt (wkt : Str) : Except String (List (Dec × Dec × Dec)) := do
   let w := toUpper wkt
-  if w.take 4 == "LINE".toList then
+  if w.take 4 == "POLY".toList then
+    let cs ← wktCoordsPoly w
+    cs.mapM parseVertex
+  else if w.take 4 == "LINE".toList then
     let cs ← wktCoords w
     cs.mapM parseVertex
+  else if w.take 7 == "MULTIPO".toList then
+    let _ ← wktCoordsPoly w
+    throw "AttributeError"
   else throw "arg"
 
 /-! ### (d) network CSV -/
@@ -590,12 +784,27 @@ contains the current time); coordinates `{:3.8f}` of `n / 10^8`, zone 0 (`Z`), t
 `4Y-2M-2DT2h:2m:2s` -/
 def gpxBody (name : Str) (rows : List GRow) : Str := ((gpxLines name rows).map (· ++ ['\n'])).flatten
 
+/-! `writeToGpx(..., af=True)`: after `<time>` every track point carries an `<extensions>` block with one line per
+analytical feature of the track, `<name>str(value)</name>` -/
+def lExt : Str := "                <extensions>".toList
+def lAf (n : Str) (v : AFVal) : Str :=
+  "                    <".toList ++ (n ++ ('>' :: (afText v ++ ('<' :: '/' :: (n ++ ['>'])))))
+def lEndExt : Str := "                </extensions>".toList
+def extLines (afs : List (Str × AFVal)) : List Str := [lExt] ++ afs.map (fun a => lAf a.1 a.2) ++ [lEndExt]
+def ptLinesAF (r : GRow) (afs : List (Str × AFVal)) : List Str := [lPt r, lEle r, lTime r] ++ extLines afs ++ [lEndPt]
+def gpxLinesAF (name : Str) (rows : List (GRow × List (Str × AFVal))) : List Str :=
+  [lTrk, lName name, lSeg] ++ (rows.map (fun ra => ptLinesAF ra.1 ra.2)).flatten ++ [lEndSeg, lEndTrk, lEndGpx]
+/-- `writeToGpx(track, path, af=True)` for one track, from the `<trk>` line on -/
+def gpxBodyAF (name : Str) (rows : List (GRow × List (Str × AFVal))) : Str :=
+  ((gpxLinesAF name rows).map (· ++ ['\n'])).flatten
+
 structure GState where
   inTrk : Bool := false
   inPt : Bool := false
   pos : Option (Dec × Dec × Dec) := none
   tps : Option Stamp := none
   tracks : List (List RRow) := []
+  inExt : Bool := false
 
 def appendLast (ts : List (List RRow)) (r : RRow) : Except String (List (List RRow)) :=
   match ts.reverse with
@@ -648,8 +857,12 @@ def gpxTime (rf : List Tok) (st : GState) (line : Str) : Except String GState :=
     | none => throw "value"
   else pure st
 
-/-- one line of the `trk` scanner of `__readFromGpx` -/
-def gpxLine (rf : List Tok) (geo : Bool) (st : GState) (line : Str) : Except String GState := do
+/-- one line of the `trk` scanner of `__readFromGpx`: the lines from `<extensions>` to `</extensions>` (both included) are
+skipped; the others go through the tag tests -/
+def gpxLine (rf : List Tok) (geo : Bool) (st0 : GState) (line : Str) : Except String GState := do
+  let st := if isInfix "<extensions>".toList line then { st0 with inExt := true } else st0
+  if st.inExt then
+    return (if isInfix "</extensions>".toList line then { st with inExt := false } else st)
   let st1 := if isInfix "<trk>".toList line then
       { st with inTrk := true, inPt := false, tracks := st.tracks ++ [[]] } else st
   let st2 := if isInfix "</trk>".toList line then { st1 with inTrk := false } else st1
